@@ -15,6 +15,7 @@
 //	hostMethodBindsRecv / bindRecvCopies   a method value of a host value copies an addressable receiver when it is evaluated
 //	ifaceWrapRecvHeld      genInterfaceWrapper(Value) gives its method wrappers such a record (a copy of the converted value)
 //	assign* / return* / default* / nestedReadIdx   index expressions of the result stores per context
+//	branchDstIdx / branchStore   the branch arm of callBin (a host call used as a condition): the slot and on which outcomes it is written
 //	wrap* / getFunc*       shape of genFunctionWrapper / getFunc: frame allocation, argument base, `fr.data[lo:hi]`
 //
 // plus fingerprints of every function the model transcribes. Anything that is not recognised is emitted as the
@@ -845,6 +846,123 @@ func main() {
 			note("deferCallSlice is used but not declared in interp/run.go")
 		}
 
+		// ---- the branch arm (`case fnext != nil:`): a host call used as a condition stores its bool result in its frame slot
+		// (`getFrame(f, level).data[index].SetBool(…)`, index := n.findex) and returns tnext / fnext. Which outcomes are stored?
+		branchStore, branchDst := ".unrecognised", ".unrecognised"
+		if n := find(cb, func(n ast.Node) bool {
+			cc, ok := n.(*ast.CaseClause)
+			return ok && len(cc.List) == 1 && str(cc.List[0]) == "fnext != nil"
+		}); n != nil {
+			cc := n.(*ast.CaseClause)
+			if as := find(cc, func(n ast.Node) bool {
+				a, ok := n.(*ast.AssignStmt)
+				return ok && a.Tok == token.DEFINE && len(a.Lhs) == 1 && str(a.Lhs[0]) == "index"
+			}); as != nil {
+				branchDst = iexpr(as.(*ast.AssignStmt).Rhs[0], map[string]string{"n.findex": ".base"})
+			}
+			if find(cc, func(n ast.Node) bool { return nospace(str(n)) == "level:=n.level" }) == nil {
+				note("branch arm: `level := n.level` not found")
+				branchDst = ".unrecognised"
+			}
+			var lit *ast.FuncLit
+			if as := find(cc, func(n ast.Node) bool {
+				a, ok := n.(*ast.AssignStmt)
+				return ok && len(a.Lhs) == 1 && str(a.Lhs[0]) == "n.exec"
+			}); as != nil {
+				lit, _ = as.(*ast.AssignStmt).Rhs[0].(*ast.FuncLit)
+			}
+			isStore := func(st ast.Stmt) (string, bool) {
+				es, ok := st.(*ast.ExprStmt)
+				if !ok {
+					return "", false
+				}
+				ce, ok := es.X.(*ast.CallExpr)
+				if !ok || nospace(str(ce.Fun)) != "getFrame(f,level).data[index].SetBool" || len(ce.Args) != 1 {
+					return "", false
+				}
+				return nospace(str(ce.Args[0])), true
+			}
+			isResult := func(e ast.Expr) bool { x := nospace(str(e)); return x == "b" || x == "res[0].Bool()" }
+			if lit == nil {
+				note("branch arm: n.exec is not a function literal")
+			} else {
+				onTrue, onFalse, bad := false, false, false
+				total := 0
+				ast.Inspect(lit, func(n ast.Node) bool {
+					if st, ok := n.(ast.Stmt); ok {
+						if _, ok := isStore(st); ok {
+							total++
+						}
+					}
+					return true
+				})
+				seen := 0
+				returned := false // an earlier `if result { …; return tnext }` was passed: what follows runs on false only
+				for _, st := range lit.Body.List {
+					if arg, ok := isStore(st); ok {
+						seen++
+						switch {
+						case returned && (arg == "false" || arg == "b" || arg == "res[0].Bool()"):
+							onFalse = true
+						case !returned && (arg == "b" || arg == "res[0].Bool()"):
+							onTrue, onFalse = true, true
+						default:
+							bad = true
+						}
+						continue
+					}
+					is, ok := st.(*ast.IfStmt)
+					if !ok || !isResult(is.Cond) {
+						continue
+					}
+					for _, t := range is.Body.List {
+						if arg, ok := isStore(t); ok {
+							seen++
+							if arg == "true" || arg == "b" || arg == "res[0].Bool()" {
+								onTrue = true
+							} else {
+								bad = true
+							}
+						}
+					}
+					if eb, ok := is.Else.(*ast.BlockStmt); ok {
+						for _, t := range eb.List {
+							if arg, ok := isStore(t); ok {
+								seen++
+								if arg == "false" || arg == "b" || arg == "res[0].Bool()" {
+									onFalse = true
+								} else {
+									bad = true
+								}
+							}
+						}
+					}
+					if l := is.Body.List; len(l) > 0 {
+						if _, ok := l[len(l)-1].(*ast.ReturnStmt); ok && is.Else == nil {
+							returned = true
+						}
+					}
+				}
+				switch {
+				case bad || seen != total:
+					note("branch arm: %d stores of the result, %d recognised", total, seen)
+				case onTrue && onFalse:
+					branchStore = ".both"
+				case onTrue:
+					branchStore = ".trueOnly"
+				case onFalse:
+					branchStore = ".falseOnly"
+				default:
+					branchStore = ".never"
+				}
+			}
+		} else {
+			note("branch arm (`case fnext != nil`) not found")
+		}
+		if branchDst == ".unrecognised" {
+			note("branch arm: destination index not recognised")
+		}
+
 		// ---- result routing
 		assignSrc, assignDst, retDst, defDst := ".unrecognised", ".unrecognised", ".unrecognised", ".unrecognised"
 		retBase := "false"
@@ -1199,6 +1317,8 @@ def facts : Facts :=
     returnDstIdx := %s,
     returnBaseIsChildPos := %s,
     defaultDstIdx := %s,
+    branchDstIdx := %s,
+    branchStore := %s,
     nestedReadIdx := %s,
     wrapFrameIsDefTypes := %s,
     wrapFramePerCall := %s,
@@ -1221,7 +1341,7 @@ def sourceHashes : List (String × String) :=
 end YaegiVerif.Generated.C07
 `, arms, common.LeanStrList(outerArms), recvGuard, rcvrCond, lo(variadicSub), argCmp, argElem, argSpread, defCmp, defElem,
 			"["+strings.Join(callArms, ", ")+"]", "["+strings.Join(fvArms, ", ")+"]", callArgArms, hostBind, bindCopies, cvGuard, cvCmp, lo(cvSub), cvThen, cvZero, cvElse,
-			deferCall, deferWrapBin, deferWrapCall, deferWrapKind, deferWrapVariadic, assignSrc, assignDst, retDst, retBase, defDst, nestedRead,
+			deferCall, deferWrapBin, deferWrapCall, deferWrapKind, deferWrapVariadic, assignSrc, assignDst, retDst, retBase, defDst, branchDst, branchStore, nestedRead,
 			wrapFrame, wrapPerCall, recvAtCreation, recvHeldAtCall, ifaceHeld, getFuncPerCall, wrapBase, lo(wrapShift), lo(wLo), wHi, skipShort, lo(gLo), gHi, common.LeanStrList(notes), hashes)
 		return src, nil
 	})
